@@ -5,12 +5,14 @@ import glob
 import json
 import math
 import os
+import sys
 
 import numpy as np
 
 import common as C
 import fuzzylite as fl
 from props import c06 as A
+from streams import load_rules as S_LOAD
 
 PID = "C16"
 MODULES = ["FlVerif.Props.C16"]
@@ -31,6 +33,7 @@ RULE = ("valid rules (antecedents to depth 3 with hedges / any / parentheses, 1-
         "parenthesis, non-numeric weight, trailing token); FLL documents of generated engines mutated by line / token "
         "deletion, duplication, substitution, truncation, reordering.  Non-trivial: the model rejects the text or accepts "
         "a text that differs from the valid original; distinct = distinct (text, engine)")
+RULE += (" Stream `load-rules` (fv/streams/load_rules.py): RuleBlock.load_rules / reload_rules on blocks of 1-6 rules mixing loadable and unloadable texts (some rule objects loaded with another text before) against Op.loadRules: RuntimeError iff a rule fails, is_loaded of every rule, order of the message, class of every failure.")
 ASSUMPTIONS = ["rule texts are compared with the executable Lean model of Rule.parse / Antecedent.load / Consequent.load "
                "(error kind, loaded tree, conclusions, weight, degrees); FLL documents have no Lean model: for them the "
                "check is the property oracle alone (error class, is_loaded, export / re-import fixpoint)",
@@ -411,10 +414,14 @@ def run_rule(case):
 
 
 def key(case):
+    if case.get("stream"):
+        return case["stream"]
     return f"{case.get('kind')}:{case.get('how')}:{case.get('text', case.get('fll', ''))[:200]}"
 
 
 def oracle(case):
+    if case.get("stream"):
+        return S_LOAD.oracle(case, sys.modules[__name__])     # RuleBlock.load_rules / reload_rules on mixed blocks
     if "fll" in case:
         return fll_oracle(case)
     r = run_rule(case)
@@ -599,7 +606,8 @@ def corpus():
     out = []
     for p in sorted(glob.glob(os.path.join(C.VERIF, "corpus", PID, "*.json"))):
         d = json.load(open(p))
-        out.append(d.get("case", d))
+        if not d.get("case", d).get("stream"):
+            out.append(d.get("case", d))
     return out
 
 
@@ -679,6 +687,8 @@ def correspond(ctx):
             mism.append({"case": case, "violation": True, "detail": detail, "what": detail})
             if len(mism) > 30:
                 break
+    # RuleBlock.load_rules / reload_rules on blocks that mix loadable and unloadable rules, against Op.loadRules
+    mism += S_LOAD.run(ctx, sys.modules[__name__])
     return mism
 
 
